@@ -1,6 +1,10 @@
 package sem
 
-import "encoding/binary"
+import (
+	"encoding/binary"
+
+	"semtest/ext"
+)
 
 // phase 3 of the translator (ext3.go): switch without a tag, sub-slices handed to callees that
 // store into them, calls of methods of the same pointer receiver
@@ -289,4 +293,29 @@ func RangeBytesNested(b []byte, k int) int {
 		}
 	}
 	return s
+}
+
+// ---- a method of an abstract object that stores into its []byte argument; uninitialised memory ----
+
+type Codec interface {
+	Size() int
+	WriteTo(b []byte, w Sink) int
+}
+
+func Pack(c Codec, tag byte) []byte {
+	n := c.Size()
+	buf := ext.Dirty(n+2, n+2)
+	buf[0] = tag
+	k := c.WriteTo(buf[1:], nil)
+	buf[1+k] = 255
+	return buf
+}
+
+func PackTwice(c Codec, tag byte) ([]byte, int) {
+	n := c.Size()
+	buf := ext.Dirty(2*n+1, 2*n+1)
+	k := c.WriteTo(buf, nil)
+	k += c.WriteTo(buf[k:], nil)
+	k += put1(buf[k:], tag)
+	return buf, k + len(buf)
 }
